@@ -210,3 +210,23 @@ Theorem TIE_genir_family_fuel_mono : forall fuel fuel' k, (fuel <= fuel')%nat ->
   ole (to_ir_iteration_graph fuel n g o k) (to_ir_iteration_graph fuel' n' g o k).
 Proof. exact family_mono. Qed.
 Print Assumptions TIE_genir_family_fuel_mono.
+
+(** input safety for LIBRARY graphs: for every graph g of today's enumeration (to_iteration_graphs_src = what the regenerated
+    to_iteration_graphs yields, TIE graphs) and the definition whose output variable is to_identifiable(target) = up_tref tr (TIE glue),
+    the hypothesis about the graph is discharged; what remains are two booleans on the definition, evaluated per problem:
+    [struct_ok] (the output is the first key of formats, not repeated; every index is sized by a tensor with a format -- what
+    make_problem / module_plan provide, NOT linked formally) and [hygienic] (no identifier collision). *)
+Theorem TIE_genir_inputs_untouched_library : forall fval a fs gs tr fmts dims g cap k f,
+  proofs.GenGraphs_equiv.to_iteration_graphs_src a fs = model.Graphs.ROk gs ->
+  model.Graphs.identify (model.Graphs.a_target a) fs = Some tr -> In g gs ->
+  struct_ok (MkDefinition (proofs.GenGraphs_base.up_tref tr) fmts dims) = true ->
+  hygienic (MkDefinition (proofs.GenGraphs_base.up_tref tr) fmts dims) = true ->
+  generate_ir cap (MkDefinition (proofs.GenGraphs_base.up_tref tr) fmts dims) (proofs.GenGraphs_base.up_graph fval g) k = Some f ->
+  forall fuel args st, proofs.Certs2Input.out_clean st args ->
+    match spec.IRSem.call fuel f args st with
+    | spec.IRSem.Fail x => x <> spec.Num.EWriteInput
+    | spec.IRSem.Returned st' _ _ => proofs.Certs2Input.out_clean st' args
+    | _ => True
+    end.
+Proof. exact gen_inputs_untouched_library. Qed.
+Print Assumptions TIE_genir_inputs_untouched_library.
